@@ -2,20 +2,28 @@
 
 package main
 
-import "github.com/cloudwego/eino/compose"
+import (
+	"github.com/cloudwego/eino/compose"
+	"github.com/cloudwego/eino/schema"
+)
 
 // White-box group "verif_c08wb" (props/C08.json extra_tags; the hook /repo/compose/verif_c08.go carries the
 // same tag): without the tag compose_off.go does the same through the public API of package schema.
 const whiteboxAvailable = true
 
 // the same calls through compose/stream_reader.go's streamReaderPacker (hook compose/verif_c08.go)
-func composeCopy(sr SR, n int) []SR { return compose.VerifC08Copy(sr, n) }
-func composeMerge(srs []SR) SR      { return compose.VerifC08Merge(srs) }
+func composeCopy[T any](sr *schema.StreamReader[T], n int) []*schema.StreamReader[T] {
+	return compose.VerifC08Copy(sr, n)
+}
+func composeMerge[T any](srs []*schema.StreamReader[T]) *schema.StreamReader[T] {
+	return compose.VerifC08Merge(srs)
+}
 
 // item-wise identity roundtrips through the other wrappers of compose/stream_reader.go: the
 // interface path of unpackStreamReader (toAnyStreamReader + per-chunk type assertion) and withKey
-func composeViaAny(sr SR) SR { return compose.VerifC08ViaAny(sr) }
-func composeViaKey(sr SR) SR { return compose.VerifC08ViaKey(sr, "k") }
-
-// ... and through a stream of any in which the zero value travels as a nil chunk
-func composeViaNilAny(sr SR) SR { return compose.VerifC08ViaNilAny(sr) }
+func composeViaAny[T any](sr *schema.StreamReader[T]) *schema.StreamReader[T] {
+	return compose.VerifC08ViaAny(sr)
+}
+func composeViaKey[T any](sr *schema.StreamReader[T]) *schema.StreamReader[T] {
+	return compose.VerifC08ViaKey(sr, "k")
+}
